@@ -33,6 +33,7 @@ type Config struct {
 	JSONWire     bool         // pass every message through encoding/json like the TCP transport
 	RefuseJoin   map[int]bool // the application refuses PEER_ADD of these key indexes
 	Liars        map[int]func(tick int) int64
+	Skew         map[int]int64 // honest nodes whose clock is ahead (or behind) by a constant
 	WrapStore    func(idx int, s hg.Store) hg.Store
 	Maintenance  map[int]bool // nodes (re)started in maintenance mode
 	CacheOf      map[int]int  // per-node cache size (overrides CacheSize)
@@ -196,7 +197,7 @@ func (c *Cluster) now() int64 {
 	if f, ok := c.Cfg.Liars[n.Idx]; ok {
 		return f(n.Ticks)
 	}
-	return BaseTime + int64(n.Ticks)*10 + int64(n.Idx)
+	return BaseTime + int64(n.Ticks)*10 + int64(n.Idx) + c.Cfg.Skew[n.Idx]
 }
 
 // startNode creates (or re-creates with bootstrap) node i.
